@@ -197,7 +197,7 @@ def case_term(c, out):
         if len(so) != len(ops):
             return None
         terms = []
-        for o, (res, ds, wsig, _) in zip(ops, so):
+        for o, (res, ds, wsig, rsig) in zip(ops, so):
             rep = 0
             if o[0] == "W":
                 if res != "W 0":
@@ -215,7 +215,7 @@ def case_term(c, out):
                     return None
                 t = "SOdm %d" % o[1]
                 rep = int(p[1])
-            terms.append("(%s, mkObs %s %s %s)" % (t, pairs(ds), pairs(wsig), cz(rep)))
+            terms.append("(%s, mkObs %s %s %s %s)" % (t, pairs(ds), pairs(wsig), pairs(rsig), cz(rep)))
         return "CSim %d %s" % (ann * MS, clist(terms))
     _, mbt, poisoned, pre = c
     res, ds, _, _ = so[-1]
